@@ -225,8 +225,26 @@ func symAff(v ssa.Value, depth int) Aff {
 			return affConst(k)
 		}
 	}
-	if depth > 12 {
+	if depth%affNoPhi > 12 {
 		return affSym(v)
+	}
+	if ph, ok := v.(*ssa.Phi); ok && depth < affNoPhi {
+		if a, okA := phiAffine(ph); okA {
+			return a
+		}
+	}
+	if cp, ok := v.(*cellPhi); ok && depth < affNoPhi {
+		if a, okA := mergeAffine(mergeNode{cp, cp.blk, cp.Edges}); okA {
+			return a
+		}
+	}
+	// a load of a private scalar cell is the value register promotion would have put there (cellssa.go)
+	if ld, ok := v.(*ssa.UnOp); ok && ld.Op == token.MUL {
+		if _, isA := ld.X.(*ssa.Alloc); isA {
+			if cv := cellLoadValue(ld); cv != nil && cv != v {
+				return symAff(cv, depth+1)
+			}
+		}
 	}
 	if fx, ok := v.(*ssa.Field); ok {
 		if fwd := fieldOfLiteral(fx); fwd != nil {
@@ -379,4 +397,99 @@ func affSame(a, b Aff) bool {
 		}
 	}
 	return true
+}
+
+// affNoPhi: depth offset under which symAff leaves φ-nodes alone (used while an invariant between φ-nodes is being
+// established, so that the derivation does not chase its own tail).
+const affNoPhi = 1000
+
+// phiAffine: a loop variable that is kept in step with another one — `remaining` with `n` in
+// `for remaining := len(in); …; remaining = len(in) - n` — is that other variable up to an invariant: p = A ± q where, on
+// every incoming edge, the operands of p and q differ by the same A (an expression free of this block's φ-nodes). Then p
+// may be replaced by A ± q wherever it is compared.
+func phiAffine(p *ssa.Phi) (Aff, bool) {
+	return mergeAffine(mergeNode{p, p.Block(), p.Edges})
+}
+
+// mergeNode: a φ-node, or the merge node of a promoted cell (cellssa.go) — a value per incoming edge of a block.
+type mergeNode struct {
+	v     ssa.Value
+	blk   *ssa.BasicBlock
+	edges []ssa.Value
+}
+
+func isIntValue(v ssa.Value) bool {
+	b, ok := v.Type().Underlying().(*types.Basic)
+	return ok && b.Info()&types.IsInteger != 0
+}
+
+func mergeNodesAt(blk *ssa.BasicBlock) []mergeNode {
+	var out []mergeNode
+	for _, in := range blk.Instrs {
+		q, ok := in.(*ssa.Phi)
+		if !ok {
+			break
+		}
+		if isIntValue(q) {
+			out = append(out, mergeNode{q, blk, q.Edges})
+		}
+	}
+	for _, cp := range cellPhisAt(blk.Parent(), blk) {
+		if isIntValue(cp) {
+			out = append(out, mergeNode{cp, blk, cp.Edges})
+		}
+	}
+	return out
+}
+
+func mergeAffine(p mergeNode) (Aff, bool) {
+	if !isIntValue(p.v) {
+		return Aff{}, false
+	}
+	blk := p.blk
+	mentionsMerge := func(a Aff) bool {
+		for s := range a.Terms {
+			if ph, ok := s.(*ssa.Phi); ok && ph.Block() == blk {
+				return true
+			}
+			if cp, ok := s.(*cellPhi); ok && cp.blk == blk {
+				return true
+			}
+		}
+		return false
+	}
+	for _, q := range mergeNodesAt(blk) {
+		if q.v == p.v {
+			break // a node is only expressed through nodes before it in the block's order: no two-way rewriting
+		}
+		if len(q.edges) != len(p.edges) {
+			continue
+		}
+		for _, c := range []int64{-1, 1} {
+			var inv Aff
+			ok := true
+			for k := range p.edges {
+				if p.edges[k] == nil || q.edges[k] == nil {
+					ok = false
+					break
+				}
+				d := symAff(p.edges[k], affNoPhi).add(symAff(q.edges[k], affNoPhi), -c)
+				if mentionsMerge(d) {
+					ok = false
+					break
+				}
+				if k == 0 {
+					inv = d
+				} else if !affSame(inv, d) {
+					ok = false
+					break
+				}
+			}
+			// a constant difference alone says nothing new about a counter (i and i+1 style pairs are left alone)
+			if ok && !inv.isConst() {
+				return inv.add(affSym(q.v), c), true
+			}
+		}
+	}
+	return Aff{}, false
 }
